@@ -33,6 +33,12 @@ pub enum DeltaEl {
     Withdraw { uri: String, old: String },
 }
 
+/// Scheme and authority of an rsync URI are case-insensitive; the client
+/// keys its objects by the canonical form (as rpki-rs compares them).
+fn canon(uri: &rpki::uri::Rsync) -> String {
+    format!("{}{}", uri.canonical_module(), uri.path())
+}
+
 fn hex(bytes: &[u8]) -> String {
     bytes.iter().map(|b| format!("{b:02x}")).collect()
 }
@@ -102,7 +108,7 @@ pub fn fetch_rrdp(
                         for el in snapshot.into_elements() {
                             let (uri, data) = el.unpack();
                             if view.snapshot.insert(
-                                uri.to_string(), sha256_hex(&data)
+                                canon(&uri), sha256_hex(&data)
                             ).is_some() {
                                 problems.push(format!(
                                     "snapshot lists {uri} twice"
@@ -158,13 +164,13 @@ pub fn fetch_rrdp(
                         DeltaElement::Publish(p) => {
                             let (uri, data) = p.unpack();
                             DeltaEl::Publish {
-                                uri: uri.to_string(), hash: sha256_hex(&data)
+                                uri: canon(&uri), hash: sha256_hex(&data)
                             }
                         }
                         DeltaElement::Update(u) => {
                             let (uri, old, data) = u.unpack();
                             DeltaEl::Update {
-                                uri: uri.to_string(),
+                                uri: canon(&uri),
                                 old: hex(old.as_slice()),
                                 hash: sha256_hex(&data),
                             }
@@ -172,7 +178,7 @@ pub fn fetch_rrdp(
                         DeltaElement::Withdraw(w) => {
                             let (uri, old) = w.unpack();
                             DeltaEl::Withdraw {
-                                uri: uri.to_string(),
+                                uri: canon(&uri),
                                 old: hex(old.as_slice()),
                             }
                         }
